@@ -138,6 +138,7 @@ def sse1Ops (cfg : SSE1Cfg) : SchemeOps where
     pure [a, b]
 
 def dp17Ops (cfg : DP17Cfg) : SchemeOps where
+  hyps lv key db t absent := DP17.hypsB cfg lv key db t absent
   keyGen t := DP17.keyGen cfg t
   setup lv key db t := do
     let (e, t') ← DP17.setup cfg lv key db t
